@@ -295,6 +295,10 @@ pub fn test_cookie() -> DecodedServerCookie {
 #[path = "/verif/hooks/ntp_proto/keyset_probe.rs"]
 mod verif_probe;
 
+#[cfg(pendulum_project_ntpd_rs_verif)]
+#[path = "/verif/hooks/ntp_proto/keyset_probe_disk.rs"]
+mod verif_probe_disk;
+
 #[cfg(test)]
 mod tests {
 
